@@ -104,6 +104,19 @@ CHECKS["C15"] = dict(
     design="7/C15", technique="Coq proof over symbolic tokens + extracted-model correspondence",
     modelled="GenerateUserToken, UserInfo, TokenInfo status mapping (symbolic); go-jose JWE/JWS and the ciphers are assumed; opacity of the token text is checked textually only.")
 
+CHECKS["C19"] = dict(
+    text="Theorems over the transcription of the RDP reader/writer and of the Builder on the regenerated ~60-row settings table: "
+         "parse(marshal m) = m as maps for every map of int64 integers and strings (C19_parse_marshal_partial: keys and string "
+         "values with ASCII non-blank first/last bytes, arbitrary interior incl. ':' and non-ASCII); every emitted file is "
+         "CRLF-terminated name:type:value lines with pairwise distinct names; load(emit s) = s for every typed assignment to the "
+         "settings (builder round trip, by induction over the table with the table's side conditions discharged by computation); "
+         "malformed lines make the parse fail; Atoi inverts %d on the whole int64 range. The real Unmarshal/Marshal/Builder/"
+         "NewBuilderFromFile run on random maps, 35 malformed line shapes, random settings and templates.",
+    design="7/C19", technique="Coq proof (string-function lemmas, induction over lines and over the settings table) + extracted-model correspondence",
+    modelled="rdp.Unmarshal/Marshal, Builder.String, isZero/initStruct, NewBuilderFromFile (hand transcription; strings.TrimSpace with "
+             "all Unicode blanks). Partial: round trips proved for ASCII-edged strings; mapstructure's case-insensitive matching "
+             "and cross-typed template values are outside the model; the forced settings of the download handler are C12.")
+
 NOT_YET = {}
 
 
